@@ -11,6 +11,7 @@ and the server still resolves a full wave of honest queries.
 
 run_engine(ctx) is what checks/c11.py calls; checks/c11e.py runs it alone (`bin/check C11E`).
 """
+import json
 import os
 
 import vf
@@ -34,8 +35,43 @@ def sample_scripts(ctx, num):
     return out
 
 
+def have_hook():
+    try:
+        with open(os.path.join(vf.REPO, "server", "udp_engine.go")) as f:
+            return "verifTraceUDP(" in f.read() and os.path.exists(os.path.join(vf.REPO, "server", "verif_trace_on.go"))
+    except OSError:
+        return False
+
+
+def run_faults(ctx, inp, name, hook):
+    """go_driver with the `c10hook` build tag when the UDP engine trace hook is in the tree."""
+    fin = os.path.join(ctx.scratch, "%s.in.json" % name)
+    fout = os.path.join(ctx.scratch, "%s.out.json" % name)
+    with open(fin, "w") as f:
+        json.dump(inp, f)
+    if os.path.exists(fout):
+        os.remove(fout)
+    extra = ["-tags", "verif c10hook"] if hook else []
+    rc, out = ctx.go_test("./c11eng", "^TestFaultScripts$", env={"VERIF_IN": fin, "VERIF_OUT": fout,
+                                                                 "VERIF_SCRATCH": ctx.scratch},
+                          timeout=1500, extra_args=extra)
+    if not os.path.exists(fout):
+        raise vf.MachineryError("fault-script driver produced no result (rc=%d)\n%s" % (rc, "\n".join(out.splitlines()[-60:])))
+    with open(fout) as f:
+        res = json.load(f)
+    if rc != 0 and not res.get("violations"):
+        raise vf.MachineryError("fault-script driver failed rc=%d without a violation\n%s" % (rc, "\n".join(out.splitlines()[-60:])))
+    return res
+
+
 def run_engine(ctx):
     thorough = ctx.tier == "thorough"
+    hook = have_hook()
+    ctx.assumptions.append(
+        "UDP engine trace hook %s: an unanswered UDP query is a violation %s" % (
+            ("present", "iff the engine read it and released its slab without a send (datagrams lost in transit are not "
+                        "the server's)") if hook else
+            ("absent", "only when no drop was recorded anywhere on the machine during the run (conservative)")))
     # the C10 overlay shim (engine stats, plan tuning) is shared with this tier
     if "c10" not in ctx.overlay_tags:
         ctx.overlay_tags.add("c10")
@@ -64,7 +100,7 @@ def run_engine(ctx):
         part = scripts[k:k + chunk]
         inp = {"scripts": part, "queryTimeoutMs": QUERY_TIMEOUT_MS, "marginMs": MARGIN_MS, "upTimeoutMs": UP_TIMEOUT_MS,
                "batch": 30, "workers": 2, "queue": 1, "maxConcurrent": 256, "load": 0}
-        res = ctx.go_driver("./c11eng", "TestFaultScripts", inp, name="faults_%d" % k, timeout=1500)
+        res = run_faults(ctx, inp, "faults_%d" % k, hook)
         ctx.take_driver_result(res, "[C11 engine] ")
         c = res.get("counters", {})
         if res.get("skipped"):
